@@ -92,6 +92,26 @@ PROPS["C19"] = dict(
         job("concurrent", "^TestConcurrent$", (1, 8), (300, 3000), (600, 3000), race=True),
     ],
 )
+PROPS["C10"] = dict(
+    pkg="c10", level="exploration", exhaustive_claim=False,
+    packages={"c10h": dict(optional=True, hooks={"rootinternal.go": "verifhook/hook.go"})},
+    technique="differential testing against exact rational arithmetic (math/big) with an independently written numeral parser: bounded-exhaustive numeral pairs + rapid-generated equal/adjacent spellings, at API level (Validate) and unit level (overlay hook)",
+    level_text=("Every RFC 8259 numeral up to 4 (quick) / 5 (thorough) characters over -0159.eE+ is paired with every other as rule parameter x document for min/max/exclusive/enum/const, longer "
+                "numerals (<=5/7) against pivots, the integer example and precision; random numerals up to 60 digits and |exponent|<=400 generated around each other (same value in another "
+                "spelling, neighbours in the last digit, sign flips). Oracle: big.Rat comparison and the normalised expansion. Through an overlay hook Number.Cmp/String/"
+                "LengthOfFractionalPart are compared directly. Exhaustive for the bounded alphabet, sampled beyond."),
+    level_note="trusted: ref.ParseDecimal + math/big; `1.0`-style numerals against integer examples and integer-vs-float equality in enum/const are not judged (statement unclear)",
+    rule=("pairs (rule parameter M without exponent, document numeral N): all numerals <=3/4 chars x all, all <=5/7 chars x 25 pivots x {min,max,exclusiveMinimum,exclusiveMaximum,enum,const}, integer "
+          "example, precision 1-3; random: mantissa <=60 digits, |exp|<=400, N derived from M by exponent shift / zero padding / e0 / sign of zero / last-digit neighbour / sign flip. "
+          "non-trivial = M and N spelled differently and equal or within 1 of each other (or sign-mirrored); for integer/precision: N has a point or exponent; distinct by (rule, M, N)"),
+    assumptions=["reference decimal parser is right (it is checked against the RFC grammar recogniser on every token)"],
+    jobs=[
+        job("exhaustive", "^TestExhaustivePairs$", (4, 16), (1, 1), (600, 3000)),
+        job("random", "^TestRandomPairs$", (2, 16), (3000, 40000), (600, 3000)),
+        job("unit-exhaustive", "^TestExhaustiveUnit$", (2, 16), (1, 1), (600, 3000), pkg="c10h"),
+        job("unit-random", "^TestRandomUnit$", (2, 8), (10000, 100000), (600, 3000), pkg="c10h"),
+    ],
+)
 
 _UNBUILT = "check under construction in this session (see DESIGN.md section 5 for the planned design)"
 NOT_APPLICABLE = [dict(property_id="C%02d" % i, reason=_UNBUILT) for i in range(1, 20) if "C%02d" % i not in PROPS]
